@@ -116,8 +116,22 @@ pub struct EndSpec {
     pub keep: bool,
 }
 
+/// A throw-away connection made *before* the judged one, by the same client to the same listener:
+/// the server accepts it, writes `segs` small segments of 0xEE bytes and drops it; the client drops its
+/// end at once (optionally after one read) and connects again `gap` ticks later — while the segments,
+/// the FIN and possibly a RST of the throw-away connection are still in flight. Nothing of it may
+/// ever show up on the judged connection.
+#[derive(Clone, Debug, Serialize, Deserialize, PartialEq)]
+pub struct Prelude {
+    pub segs: u8,
+    pub client_reads: bool,
+    pub gap: u16,
+}
+
 #[derive(Clone, Debug, Serialize, Deserialize, PartialEq)]
 pub struct ConnSpec {
+    #[serde(default)]
+    pub prelude: Option<Prelude>,
     pub client: usize,
     pub server: usize,
     pub via: Via,
@@ -326,7 +340,8 @@ fn gen_scenario(rng: &mut Rng) -> Scenario {
                 s.fin = Fin::Shutdown;
             }
         }
-        conns.push(ConnSpec { client, server, via, bind_localhost: via == Via::Loopback && rng.chance(1, 2), connect_delay: rng.range(1, 3) as u16, c, s });
+        let prelude = if !owned && rng.chance(1, 5) { Some(Prelude { segs: rng.range(0, cfg.tcp_capacity.min(3) as u64) as u8, client_reads: rng.chance(1, 3), gap: rng.range(0, lat + 1) as u16 }) } else { None };
+        conns.push(ConnSpec { prelude, client, server, via, bind_localhost: via == Via::Loopback && rng.chance(1, 2), connect_delay: rng.range(1, 3) as u16, c, s });
     }
     let mut script = Vec::new();
     let mode = if owned {
@@ -389,6 +404,8 @@ struct ConnSt {
     abortive: bool,
     started: [bool; 2],
     end_done: [bool; 2],
+    /// client port of the throw-away connection (its segments are not this connection's)
+    prelude_cport: Option<u16>,
 }
 
 #[derive(Clone)]
@@ -1020,6 +1037,24 @@ async fn server_end(sh: Sh, c: usize, spec: ConnSpec, ipv6: bool) {
             return;
         }
     };
+    if let Some(p) = &spec.prelude {
+        match l.accept().await {
+            Ok((mut s, _)) => {
+                sh.log.ev(format!("conn {c} s accepted the throw-away connection"));
+                for _ in 0..p.segs {
+                    if s.write_all(&[0xEE; 5]).await.is_err() {
+                        break;
+                    }
+                }
+                drop(s);
+                sh.probe("throwaway_connection_before_the_judged_one");
+            }
+            Err(e) => {
+                *sh.herr.borrow_mut() = Some(format!("conn {c}: accept (throw-away) failed: {e}"));
+                return;
+            }
+        }
+    }
     match l.accept().await {
         Ok((s, _)) => {
             drop(l);
@@ -1032,6 +1067,36 @@ async fn server_end(sh: Sh, c: usize, spec: ConnSpec, ipv6: bool) {
 async fn client_end(sh: Sh, c: usize, spec: ConnSpec, ipv6: bool) {
     sh.sleep_ticks(spec.connect_delay.max(1) as u64).await;
     let port = PORT0 + c as u16;
+    if let Some(p) = &spec.prelude {
+        let r = match spec.via {
+            Via::Remote | Via::OwnAddr => TcpStream::connect((host_ip(spec.server, ipv6), port)).await,
+            Via::RemoteByName => TcpStream::connect((host_name(spec.server), port)).await,
+            Via::Loopback => TcpStream::connect((loopback(ipv6), port)).await,
+        };
+        match r {
+            Ok(mut s) => {
+                let lp = s.local_addr().map(|a| a.port()).unwrap_or(0);
+                sh.st.borrow_mut()[c].prelude_cport = Some(lp);
+                if p.client_reads {
+                    let mut b = [0u8; 3];
+                    let _ = s.read(&mut b).await;
+                }
+                drop(s);
+                sh.log.ev(format!("conn {c} c made and dropped the throw-away connection"));
+                sh.log.tag("pre");
+            }
+            Err(e) => {
+                sh.log.ev(format!("conn {c} c throw-away connect -> Err {}", kind_name(e.kind())));
+                if !sh.partitioned.get() {
+                    *sh.herr.borrow_mut() = Some(format!("conn {c}: throw-away connect failed without any partition: {e}"));
+                }
+                return;
+            }
+        }
+        if p.gap > 0 {
+            sh.sleep_ticks(p.gap as u64).await;
+        }
+    }
     let r = match spec.via {
         Via::Remote | Via::OwnAddr => TcpStream::connect((host_ip(spec.server, ipv6), port)).await,
         Via::RemoteByName => TcpStream::connect((host_name(spec.server), port)).await,
@@ -1075,7 +1140,7 @@ fn step_cap(sc: &Scenario) -> u32 {
     let mut sleeps = 0u64;
     let mut segs = 0u64;
     for c in &sc.conns {
-        sleeps += c.c.sleeps() + c.s.sleeps() + c.connect_delay as u64 + 1;
+        sleeps += c.c.sleeps() + c.s.sleeps() + c.connect_delay as u64 + 1 + c.prelude.as_ref().map(|p| p.gap as u64 + 4 * lat + 8).unwrap_or(0);
         segs += (c.c.wops.len() + c.s.wops.len()) as u64 + 6;
     }
     let last_script = sc.script.iter().map(|(s, _)| *s as u64).max().unwrap_or(0);
@@ -1086,13 +1151,15 @@ fn step_cap(sc: &Scenario) -> u32 {
     (60 + sleeps + last_script + segs * per).min(20_000) as u32
 }
 
-fn dir_of(f: &Flight, nconn: usize) -> Option<(usize, usize)> {
+fn dir_of(f: &Flight, nconn: usize, pre: &[Option<u16>]) -> Option<(usize, usize)> {
     let (sp, dp) = (f.src.port(), f.dst.port());
     if dp >= PORT0 && ((dp - PORT0) as usize) < nconn {
-        return Some(((dp - PORT0) as usize, 0));
+        let c = (dp - PORT0) as usize;
+        return if pre[c] == Some(sp) { None } else { Some((c, 0)) };
     }
     if sp >= PORT0 && ((sp - PORT0) as usize) < nconn {
-        return Some(((sp - PORT0) as usize, 1));
+        let c = (sp - PORT0) as usize;
+        return if pre[c] == Some(dp) { None } else { Some((c, 1)) };
     }
     None
 }
@@ -1206,11 +1273,12 @@ fn execute(sc: &Scenario, keep: bool) -> (Report, RunInfo) {
             }
             let after = inflight(&sim);
             let delivered = gone(&before, &after);
+            let pre: Vec<Option<u16>> = sh.st.borrow().iter().map(|c| c.prelude_cport).collect();
             for f in &delivered {
                 if !matches!(f.kind, MsgKind::Data | MsgKind::Fin) {
                     continue;
                 }
-                let Some((c, d)) = dir_of(f, nconn) else { continue };
+                let Some((c, d)) = dir_of(f, nconn, &pre) else { continue };
                 let same_dir_earlier = after.iter().filter(|x| x.src == f.src && x.dst == f.dst && matches!(x.kind, MsgKind::Data | MsgKind::Fin) && x.seq < f.seq).count();
                 if same_dir_earlier > 0 {
                     probes.inc("segment_overtook");
@@ -1229,7 +1297,7 @@ fn execute(sc: &Scenario, keep: bool) -> (Report, RunInfo) {
                     for d in 0..2 {
                         let ds = &mut st[c].d[d];
                         if ds.fin_delivered && ds.fin_found_full.is_none() {
-                            let waiting = after.iter().any(|x| matches!(x.kind, MsgKind::Data) && dir_of(x, nconn) == Some((c, d)));
+                            let waiting = after.iter().any(|x| matches!(x.kind, MsgKind::Data) && dir_of(x, nconn, &pre) == Some((c, d)));
                             if !waiting {
                                 let unpulled = ds.seg_ends.len().saturating_sub(pulled_before[c][d]);
                                 let full = unpulled >= tcp_cap;
@@ -1531,6 +1599,20 @@ impl Property for C02 {
                     out.push(c);
                 }
             }
+            if let Some(p) = &sc.conns[ci].prelude {
+                let mut c = sc.clone();
+                c.conns[ci].prelude = None;
+                out.push(c);
+                if p.segs > 0 || p.client_reads || p.gap > 0 {
+                    for q in [Prelude { segs: 0, ..p.clone() }, Prelude { client_reads: false, ..p.clone() }, Prelude { gap: 0, ..p.clone() }] {
+                        if q != *p {
+                            let mut c = sc.clone();
+                            c.conns[ci].prelude = Some(q);
+                            out.push(c);
+                        }
+                    }
+                }
+            }
             if sc.conns[ci].connect_delay > 1 {
                 let mut c = sc.clone();
                 c.conns[ci].connect_delay = 1;
@@ -1656,7 +1738,7 @@ mod tests {
 
     fn base(cap: usize, c: EndSpec, s: EndSpec) -> Scenario {
         let cfg = SimCfg { tcp_capacity: cap, min_latency_us: 1000, max_latency_us: 1000, ..SimCfg::default() };
-        Scenario { cfg, guarded: false, hosts: 2, conns: vec![ConnSpec { client: 0, server: 1, via: Via::Remote, bind_localhost: false, connect_delay: 1, c, s }], mode: Mode::Latency, script: vec![], enumerate: false }
+        Scenario { cfg, guarded: false, hosts: 2, conns: vec![ConnSpec { prelude: None, client: 0, server: 1, via: Via::Remote, bind_localhost: false, connect_delay: 1, c, s }], mode: Mode::Latency, script: vec![], enumerate: false }
     }
 
     /// the oracle accepts the plain ping-pong of /repo's own tests
